@@ -11,6 +11,44 @@ SEEDED = os.path.join(VERIF, "seeded")
 
 # what each change is and what it needs in order to manifest (from the sub-agents' notes, checked by me)
 INFO = {
+ "C01_l": ('String16 length header read as int(b[0]<<8 | b[1]): the shift happens in a byte', 'String16 values of 256 bytes or more'),
+ "C01_m": ('compact step layout: one byte per step when every step fits; the one-byte decoder computes int32(buf[i] << 2) in a byte', 'no stored inner prefixes, every run under 128 bytes, some run of 32..127 bytes'),
+ "C02_l": ('TypeEncoder.Decode reads with defaultEndian instead of m.Endian', 'a TypeEncoder built with binary.BigEndian'),
+ "C02_m": ('newToKeep compares values through sameValueFunc; records wider than 8 bytes are compared in 8-byte words and the last w%8 bytes never', 'fixed-width encoder of width > 8, not a multiple of 8, adjacent values differing only in the trailing bytes'),
+ "C03_l": ('TypeEncoder.Decode reads with the package default byte order (bytes.NewReader clean-up)', 'TypeEncoder with binary.BigEndian and a multi-byte type on a Complete trie'),
+ "C03_m": ('node-shape blocks of newSlim merged into creator.wordOf: one alignment wordStart &= ^(wordSize-1) for both node sizes', 'a 257-bit node whose keys share the high nibble of the branching byte'),
+ "C04_l": ('newVLenArray sizes the presence bitmap by EltCnt (non-empty values) instead of len(elts)', 'Complete trie scanned with values, empty encodings from a multiple-of-64 ordinal to the end'),
+ "C04_m": ("ScanPrefix feature: ScanFrom/ScanFromTo share scanRange, which takes an empty end for 'no end bound'", 'ScanFromTo with end == ""'),
+ "C05_l": ('load fix-ups gated by vers.Check(ver, "<0.5.11") instead of "<0.5.12"', 'a stream whose header says 0.5.11'),
+ "C05_m": ('NewSlimTrie records per-level counts in the creator instead of calling initLevels; leaf count from creator.leafCnt', 'a trie built without values: Stat differs before and after a marshal round trip'),
+ "C06_l": ('decStep assembles the stored step in int16: steps of 32768 words and more are sign-extended', 'a step-only stream with a branch-free run of 16 KB or more'),
+ "C06_m": ('before000512FixLeafSize takes the leaf width from the stream via leafCountOf, which omits the root', '0.5.10/0.5.11 stream with values and at most value-size+1 leaves'),
+ "C07_l": ('compatibleVersions(): "==0.5.11" mistyped as "==0.5.1"', 'a header carrying version 0.5.1 is loaded; real 0.5.11 streams are refused'),
+ "C07_m": ('Unmarshal split in two with one loadError(err, what, h, reader) helper that calls h.GetVersion() on a nil header', 'a stream cut within the first 32 bytes: panic instead of error'),
+ "C08_l": ('alignment masks 7 and 3 replaced by constants; the 257-bit branch uses wordSize (4) instead of bigWordSize (8)', 'a big node whose keys share the upper half-byte of the branching byte'),
+ "C08_m": ('describeKeyOrder() summary built with errors.Errorf("%s: ...", ErrKeyOutOfOrder) instead of Wrapf', 'two or more order violations: errors.Cause is no longer ErrKeyOutOfOrder'),
+ "C09_l": ('String16 Decode/GetEncodedSize read the header as int(b[0]<<8 | b[1])', 'String16 values of 256 bytes or more returned by Search'),
+ "C09_m": ('newVLenArrayOf(elts, indexes): the loop collecting non-empty elements still ranges over elts by position', 'a codec with empty encodings and a leaf order that differs from key order'),
+ "C11_l": ('getInnerBM writes the one-word bitmap of a short node into st.shortBM instead of allocating', 'two overlapping String() calls on a trie with short nodes'),
+ "C11_m": ('iterators decode the labels of a 257-bit node once into st.vars.BigLabels[i], lazily and unsynchronised', 'concurrent first scans through a 257-bit root'),
+ "C12_l": ('alignment masks replaced by constants; the big branch aligns with ^(wordSize-1)', 'big-node key subset sharing the high half-byte'),
+ "C12_m": ('SlimIndex remembers min/max key length and answers not-found early; else-if keeps the first key out of the maximum', 'the first key strictly longer than every other key'),
+ "C13_l": ("normalizeOpt lost '&& *o.Complete == true'", 'Opt{Complete: Bool(false)} stores complete key information'),
+ "C13_m": ('with InnerPrefix on, newSlim narrows each subset to the span of its kept keys', 'DedupValue on, a run of adjacent equal values, InnerPrefix compared with the default mode'),
+ "C14_l": ('load fix-ups gated by "<0.5.11"', '0.5.11 stream: Get panics while the typed getters answer'),
+ "C14_m": ('typed getters share leafIndexOf with an inline walk for step-only tries; the dispatch ignores LeafPrefixes', 'LeafPrefix=true, InnerPrefix=false, absent key differing in the stored leaf suffix'),
+ "C15_l": ('String16.Decode lost the [:l] upper bound while gaining a short-data check', 'unrelated bytes following the record'),
+ "C15_m": ('TypeEncoder.Decode through a lazily compiled leaf layout; append(path, i) slices share a backing array', 'types nested four levels deep'),
+ "C16_l": ('Array.Init makes the decoder with NewTypeEncoderEndianByType(v.Type(), endian)', 'elements handed over in a []interface{}'),
+ "C16_m": ('Base.InitIndex rewritten around a single-pass buildIndex relative to the previous index: leading empty words are never emitted', 'smallest index 64 or more'),
+ "C17_l": ("normalizeOpt: 'o.Complete != nil' without the dereference", 'Opt{Complete: Bool(false)} in filter mode stores prefixes'),
+ "C17_m": ('per-level node counts stored in a new serialized field Slim.Levels', 'a caterpillar trie (depth = key count): about 9 bytes per key'),
+ "C18_l": ('initLevels guard before reading the node total is totalInner > 1 instead of > 0', 'a trie with exactly one inner node'),
+ "C18_m": ('normalizeOpt via resolveOpt returning optFlags; the Complete branch returns early without the DedupValue default', 'Opt{Complete: true} with adjacent equal values'),
+ "C19_l": ("ShortBM sized innerCnt - bigCnt ('only normal nodes can be short')", 'a 257-bit node, inner-node count crossing a 64-bit word when big nodes are subtracted'),
+ "C19_m": ('linear-time String() with flat slices; fanout is a []uint8', 'a 257-bit node with 256 or 257 children'),
+ "C20_l": ('encode.Bytes.Encode pads/truncates into a fresh buffer with the copy() arguments swapped', "[][]byte values whose length differs from Size: the caller's bytes are zeroed"),
+ "C20_m": ('the trie remembers its build options: NewSlimTrie stores its shallow copy of Opt', 'caller reuses its own *bool variables after the build'),
  "C01_a": ("getLabelIdxOfKey merged into `int32(word+1)` with word a byte: 0xff wraps to the end-of-key slot", "a 257-bit node on the path and a branching byte of exactly 0xff (suite keys are 7-bit ASCII)"),
  "C01_b": ("newVLenArray decides fixed-size by `totalSize == lastSize*count` instead of per-element equality", "variable-width encoder whose retained value sizes average to the size of the last value"),
  "C02_a": ("same change as C01_b (newVLenArray width decision from aggregates)", "String16 values with encoded widths 3,5,4 and de-duplication on"),
